@@ -98,4 +98,15 @@ example :
   · trivial
   · intro h; cases h
 
+/-- the guard as repaired by /repo commit c4595d2 (test): an elided clitic that carries a tag and punctuation,
+    `<i>l'</i>.`, is recognised (`ClauseFr.elidedForm`) and stays where it is; the bare `le` is still a clitic to pop -/
+example :
+    let pro : ClauseFr.ProT := { lemma := ['l','u','i'], c := some .acc, tn := false, pe := 3, n := .s, g := .m }
+    ClauseFr.elidedForm "<i>l'</i>. ".toList = true ∧ ClauseFr.isCliticPro pro "<i>l'</i>. ".toList = false ∧
+    ClauseFr.isCliticPro pro "le".toList = true ∧
+    ClauseFr.placedAt [] [.pro pro "<i>l'</i>. ".toList, .v (ClauseFr.mkV Gen.ClauseFr.verb_avoir .b) "écouter".toList]
+        (ClauseFr.mkV Gen.ClauseFr.verb_vouloir .p) "veux".toList false none =
+      [.v (ClauseFr.mkV Gen.ClauseFr.verb_vouloir .p) "veux".toList, .pro pro "<i>l'</i>. ".toList,
+       .v (ClauseFr.mkV Gen.ClauseFr.verb_avoir .b) "écouter".toList] := by decide
+
 end Pyrealb.C06
